@@ -41,13 +41,49 @@ def run_race_binary(binary, args, timeout=1800):
 
 
 def race_report(stderr):
-    """first DATA RACE block of a race detector report, or None"""
+    """one-line summary of the first DATA RACE block of a race detector report (both accesses, first non-runtime frame each), or None"""
     i = stderr.find('WARNING: DATA RACE')
     if i < 0:
         return None
-    blk = stderr[i:i + 2500]
-    locs = re.findall(r'\n\s+(\S+\(\))\n\s+(\S+:\d+)', blk)
-    return 'DATA RACE: ' + '; '.join('%s %s' % (f.split('/')[-1], l) for f, l in locs[:2] + locs[-2:][:0]) + ' | ' + ' '.join(blk.split('\n')[1:2])
+    blk = stderr[i:i + 6000].split('==================')[0]
+    parts = []
+    for m in re.finditer(r'\n((?:Previous )?(?:[Rr]ead|[Ww]rite|Atomic \w+) at \S+ by [^\n:]+):\n((?:\s+\S.*\n\s+\S+:\d+.*\n)+)', blk):
+        frames = re.findall(r'\s+(\S+)\(\)\n\s+(\S+):(\d+)', m.group(2))
+        pick = next((f for f in frames if 'toolchain' not in f[1] and '/src/runtime/' not in f[1]), frames[0] if frames else ('?', '?', '?'))
+        parts.append('%s in %s %s:%s' % (re.sub(r' at \S+', '', m.group(1)), pick[0].split('/')[-1], pick[1], pick[2]))
+    return 'DATA RACE: ' + (' / '.join(parts[:2]) if parts else ' '.join(blk.split('\n')[1:3]))
+
+
+def show_patch(p):
+    def unh(h):
+        try:
+            return '' if h in ('-', '') else bytes.fromhex(h).decode('utf-8', 'replace')
+        except ValueError:
+            return h
+    try:
+        ups, fixed, intro = p.split('~')
+        u = ', '.join('%s %s->%s' % tuple(unh(x) for x in e.split(':')[:3]) for e in ups.split(',') if e != '-')
+        return '{%s | fixes %s | introduces %s}' % (u, [unh(x) for x in fixed.split(',') if x != '-'], [unh(x) for x in intro.split(',') if x != '-'])
+    except ValueError:
+        return p
+
+
+def patches_verdict(got, spec, how):
+    """the schedule-independent specification (Lean: breadth-first closure, sorted, compacted) against what the implementation returned"""
+    if got == spec:
+        return None
+    g = [] if got in ('-', '') else got.split(';')
+    w = [] if spec in ('-', '') else spec.split(';')
+    lost = [show_patch(p) for p in w if p not in g]
+    extra = [show_patch(p) for p in g if p not in w]
+    what = []
+    if lost:
+        what.append('lost patch(es): ' + '; '.join(lost[:3]))
+    if extra:
+        what.append('patch(es) that no attempt of the closure produces: ' + '; '.join(extra[:3]))
+    if not lost and not extra:
+        what.append('same patches in a different order / multiplicity: got %d, expected %d' % (len(g), len(w)))
+    return 'ComputePatches %s returned %d patch(es) where the schedule-independent result has %d — %s' % (how, len(g), len(w), ' | '.join(what))
 
 
 def cache_oracle(case, fi):
@@ -92,6 +128,25 @@ def cache_oracle(case, fi):
     return None
 
 
+def judge_free(ctx, rows, oracle, classify, nontrivial, what):
+    """free runs have no schedule to replay on the model: the implementation's result is judged by the specification only"""
+    rows = [r for r in rows if r[0].startswith('pfree ')]
+    if not rows:
+        return
+    model = ctx.run_driver('drv_c16', [c for c, _ in rows])
+    for (case, impl), mod in zip(rows, model):
+        fi, fm = lib.fields(impl), lib.fields(mod)
+        ctx.add_case(case, nontrivial(case, fi, fm), classify(case, fi, fm))
+        if 'spec' not in fm:
+            ctx.mismatches.append(case)
+            if not any('driver rejects' in v[0] for v in ctx.violations):
+                ctx.violation('%s: the driver rejects a free-run case: %s' % (what, mod), [case + '\t' + impl + '\t' + mod], found_input=False, name='free-driver')
+            continue
+        verdict = oracle(case, fi, fm)
+        if verdict is not None and sum(1 for v in ctx.violations if v[2]) < 3:
+            ctx.violation('specification violated by the implementation: ' + verdict, [case + '\t' + impl + '\t' + mod])
+
+
 def run(ctx):
     ctx.trusted = ['Lean 4.33.0 kernel', 'axioms: propext, Quot.sound, Classical.choice at most (see theorems.*.axioms)',
                    'translator/cmd/tickerdump (go/ast): field names, access sites, write/read classification, lock regions of extractor/filesystem/*.go',
@@ -112,7 +167,10 @@ def run(ctx):
                 '1..2 keys (first caller on key 0), plus one SetMap (3 maps) + GetMap anywhere (quick: <=3 callers, thorough: 4); race: the same streams under -race and whole scans of '
                 '30..37 files over a slow FS (> 2.5 s, ticker fires). non-trivial = patches case with >=3 deliveries, cache case with a waiter or a failed fetch; distinct = distinct case lines')
     # 1. regenerate the access table from what the source says NOW
-    tr_ok, tr_out = translib.run_translator(ctx, 'tickerdump', ['-out', lib.LEAN + '/Scalibr/Gen/Ticker.lean'], overlay=False)
+    targs = ['-out', lib.LEAN + '/Scalibr/Gen/Ticker.lean']
+    if getattr(lib, 'ALT_REPO', None):
+        targs += ['-dir', lib.ALT_REPO + '/extractor/filesystem']
+    tr_ok, tr_out = translib.run_translator(ctx, 'tickerdump', targs, overlay=False)
     m = re.search(r'tickerdump: fields=(\d+) funcs=(\d+) accesses=(\d+) ticker=\[([^\]]*)\] shared=\[([^\]]*)\] unguarded_sites_of_shared_fields=(\d+) irregular=(\d+)', tr_out)
     if m:
         ctx.extra['ticker_table'] = {'fields': int(m.group(1)), 'funcs': int(m.group(2)), 'accesses': int(m.group(3)), 'ticker_funcs': m.group(4).split(','),
@@ -136,6 +194,8 @@ def run(ctx):
         t = case.split(' ')
         if t[0] == 'patches':
             return t[5].count('/') >= 2
+        if t[0] == 'pfree':
+            return t[4].count('|') >= 2
         return 'w' in fi.get('cls', '') or ':err' in t[2]
 
     def oracle(case, fi, fm):
@@ -144,9 +204,19 @@ def run(ctx):
             r = fi.get('res', fi.get('_', ''))
             if r == 'panic':
                 return 'ComputePatches panicked'
-            if fm.get('done') == '1' and fm.get('cmpeq') == '1' and fm.get('order') == '1' and 'spec' in fm and r != fm['spec'] and not r.startswith('desync'):
-                return ('ComputePatches returned %s under the delivery order %s; the schedule-independent result (breadth-first closure, sorted, compacted) is %s'
-                        % (r, t[5], fm['spec']))
+            # the specification does not need the model's run of this schedule: also judged when the implementation made calls the
+            # model's worklist never has (res=bad-schedule on the model side)
+            if fm.get('cmpeq') == '1' and fm.get('order') == '1' and 'spec' in fm and fm['spec'] != 'nonterminating' \
+                    and not r.startswith(('desync', 'incomplete', 'unspecified')):
+                return patches_verdict(r, fm['spec'], 'under the delivery order %s' % '/'.join(
+                    '[' + ','.join(bytes.fromhex(x).decode('utf-8', 'replace') for x in k.split('.')) + ']' for k in t[5].split('/') if k != '-'))
+            return None
+        if t[0] == 'pfree':
+            r = fi.get('out', fi.get('_', ''))
+            if r == 'panic':
+                return 'ComputePatches panicked (free run %s)' % t[5]
+            if fm.get('cmpeq') == '1' and fm.get('order') == '1' and 'spec' in fm and fm['spec'] != 'nonterminating' and r != 'error':
+                return patches_verdict(r, fm['spec'], 'run freely under the Go scheduler (%s: GOMAXPROCS/repetition)' % t[5])
             return None
         return cache_oracle(case, fi)
 
@@ -159,12 +229,23 @@ def run(ctx):
             u['n'] += 1
             if fm.get('cmpeq') != '1':
                 u['cmpeq'] = fm.get('cmpeq')
-            return 'patches grouped=%s cmpeq=%s order=%s' % (t[1], fm.get('cmpeq'), fm.get('order'))
+            depth = max(k.split('=')[0].count('.') for k in t[4].split('|')) if t[4] != '-' else 0
+            return 'patches grouped=%s cmpeq=%s order=%s ids<=%d' % (t[1], fm.get('cmpeq'), fm.get('order'), depth + 1)
+        if t[0] == 'pfree':
+            depth = max(k.split('=')[0].count('.') for k in t[4].split('|')) if t[4] != '-' else 0
+            return 'free grouped=%s ids<=%d %s' % (t[1], depth + 1, t[5].split('r')[0])
         return 'cache callers=%d keys=%d setmap=%s' % (t[1].count(',') + 1, len(set(t[1].split(','))), '1' if ',S' in t[2] else '0')
 
-    if not ctx.replay or any(l.startswith(('patches ', 'cache ')) for l in open(ctx.replay)):
+    if not ctx.replay or any(l.startswith(('patches ', 'cache ', 'pfree ')) for l in open(ctx.replay)):
         lib.standard_stream(ctx, gen='c16gen', driver='drv_c16', gen_args=['-seed', str(ctx.seed), '-n', str(n), '-tier', ctx.tier],
                             compare_keys=COMPARE, nontrivial=nontrivial, oracle=oracle, classify=classify, sample_every=1499)
+    if not ctx.replay:
+        # the same universes (chains 1..8 deep, fan-out 1..3, both branches) run UNGATED under the Go scheduler, GOMAXPROCS 1 and 16,
+        # several repetitions with Gosched/sleep perturbation at the entry of every attempt; result against the specification
+        binary = ctx.go_build('c16gen')
+        if binary:
+            rows, okg = ctx.run_gen(binary, ['-mode', 'free', '-seed', str(ctx.seed), '-tier', ctx.tier])
+            judge_free(ctx, rows, oracle, classify, nontrivial, 'c16gen -mode free')
     # schedule independence observed on the implementation itself, per universe
     nu = len(by_universe)
     viol = {'cmpeq_violated': 0, 'mixed_version_forms': 0, 'of_which_results_differ_across_schedules': 0}
@@ -193,6 +274,29 @@ def run(ctx):
             scan_seeds = [int(l.split()[1]) for l in open(ctx.replay) if l.startswith('scan ')]
         else:
             scan_seeds = [ctx.seed * 100 + i for i in range({'quick': 1, 'thorough': 5}[ctx.tier])]
+            # 4a'. free runs under the race detector, sequentially, halting at the first report so that it belongs to ONE case
+        free_args = ['-mode', 'free', '-seed', str(ctx.seed), '-tier', ctx.tier]
+        if ctx.replay:
+            free_args = ['-replay', ctx.replay] if any(l.startswith('pfree ') for l in open(ctx.replay)) else None
+        if free_args:
+            e = lib.goenv()
+            e['GORACE'] = 'halt_on_error=1 exitcode=66'
+            p = subprocess.run([race_bin] + free_args, stdout=subprocess.PIPE, stderr=subprocess.PIPE, text=True, timeout=1800, env=e, errors='replace')
+            frows = [tuple(l.split('\t', 1)) for l in p.stdout.split('\n') if '\t' in l and l.startswith('pfree ')]
+            races['free_runs_under_race'] = len(frows)
+            rep = race_report(p.stderr)
+            if rep or p.returncode == 66:
+                races['reports'] += 1
+                running = [l[6:] for l in p.stderr.split('\n') if l.startswith('@case ')]
+                case = running[-1] if running else '# (case unknown)'
+                i = p.stderr.find('WARNING: DATA RACE')
+                ctx.violation('the race detector reports a data race inside guided remediation\'s patch computation (real ComputePatches, free run): %s' % (rep or 'exit code 66'),
+                              [case] + ['# ' + l for l in p.stderr[i:].split('\n')[:45]], name='race-free')
+            elif p.returncode != 0:
+                ctx.violation('c16gen-race -mode free exited %d: %s' % (p.returncode, p.stderr[-600:]), ['# see notes'], found_input=False, name='race-free-crash')
+            if drv_ok:
+                judge_free(ctx, frows, oracle, classify, nontrivial, 'c16gen-race -mode free')
+        if not ctx.replay:
             # 4a. the schedule streams again, under the race detector (results compared with the model as well)
             rn = {'quick': 10, 'thorough': n}[ctx.tier]
             out, err, rc = run_race_binary(race_bin, ['-seed', str(ctx.seed), '-n', str(rn), '-tier', ctx.tier])
